@@ -1,5 +1,7 @@
 import Clover.Props.C04
 import Clover.Spec.Spec
+import Clover.Proofs.RefineReads
+import Clover.Proofs.RefineFindAll
 /-! # C09 — Count, Exists, FindFirst, ForEach and FindById agree with FindAll; reads are pure -/
 namespace CV.Props.C09
 open CV
@@ -18,5 +20,33 @@ theorem spec_count_is_length (s : Spec.State) (q : Query) (coll : Spec.Coll)
     (h : Spec.lookup q.coll s = some coll) :
     (Spec.step likeFn fnFam s (.count q)).1 = .ok (.int (Spec.findAll likeFn fnFam q coll).length) := by
   simp [Spec.step, Spec.withColl, h]
+
+/-- `FindById` returns the document iff it is live, in every store representing a well-formed state -/
+theorem findById_iff_live (s : Spec.State) (σ : KVS) (hw : WF s) (hr : Rep s σ) (c id : Bytes) (hc : Keys.Clean c) :
+    (withTx false (Op.body likeFn fnFam (.findById c id)) noFault σ).1 =
+      (Spec.step likeFn fnFam s (.findById c id)).1 :=
+  findById_refines likeFn fnFam s σ hw hr c id hc
+
+/-- `HasCollection` agrees with the specification's catalog -/
+theorem hasCollection_exact (s : Spec.State) (σ : KVS) (hr : Rep s σ) (c : Bytes) :
+    (withTx false (Op.body likeFn fnFam (.hasCollection c)) noFault σ).1 =
+      (Spec.step likeFn fnFam s (.hasCollection c)).1 :=
+  hasCollection_refines likeFn fnFam s σ hr c
+
+/-- `Count(q)` is the length of `FindAll(q)` — through the stored counter when there is no criteria,
+    through the plan otherwise; `Exists` and `FindFirst` are `FindAll` under limit 1 (collections
+    without indexes; with indexes the same is checked at run time). -/
+theorem count_is_length_partial (s : Spec.State) (σ : KVS) (hw : WF s) (hr : Rep s σ) (q : Query)
+    (coll : Spec.Coll) (hc : Keys.Clean q.coll) (hl : Spec.lookup q.coll s = some coll) (hni : coll.indexes = []) :
+    (withTx false (Op.body likeFn fnFam (.count q)) noFault σ).1 = (Spec.step likeFn fnFam s (.count q)).1 :=
+  count_refines_noindex likeFn fnFam s σ hw hr q coll hc hl hni
+theorem exists_iff_nonempty_partial (s : Spec.State) (σ : KVS) (hw : WF s) (hr : Rep s σ) (q : Query)
+    (coll : Spec.Coll) (hc : Keys.Clean q.coll) (hl : Spec.lookup q.coll s = some coll) (hni : coll.indexes = []) :
+    (withTx false (Op.body likeFn fnFam (.exists_ q)) noFault σ).1 = (Spec.step likeFn fnFam s (.exists_ q)).1 :=
+  exists_refines_noindex likeFn fnFam s σ hw hr q coll hc hl hni
+theorem findFirst_is_head_partial (s : Spec.State) (σ : KVS) (hw : WF s) (hr : Rep s σ) (q : Query)
+    (coll : Spec.Coll) (hc : Keys.Clean q.coll) (hl : Spec.lookup q.coll s = some coll) (hni : coll.indexes = []) :
+    (withTx false (Op.body likeFn fnFam (.findFirst q)) noFault σ).1 = (Spec.step likeFn fnFam s (.findFirst q)).1 :=
+  findFirst_refines_noindex likeFn fnFam s σ hw hr q coll hc hl hni
 
 end CV.Props.C09
